@@ -224,6 +224,90 @@ def run_dual_lemma(mutate=None):
     return dict(obls=obls, paths=n, sources=[], consistent=sym.consistent())
 
 
+G_ = "tdgl.device.meshing"
+
+
+def run_mesher_wrapper(mutate=None):
+    """generate_mesh is a wrapper around Triangle: it centres the outline, calls triangle.build (repeatedly when refining) and must hand
+    back Triangle's LAST output shifted back by the centre, on EVERY return path.  Triangle is a stub whose vertex coordinates are
+    uninterpreted reals (one fresh family per call), so the obligations hold for whatever the mesher returns; the outline is a concrete
+    off-centre rectangle with an off-centre hole (real numpy on object arrays of symbolic values)."""
+    import numpy as np
+    mut = [(o, n) for (m, o, n) in (mutate or []) if m == G_]
+
+    def body():
+        builds = []
+
+        class MeshInfo:
+            def set_points(self, p): self.points = np.array(p, dtype=float)
+            def set_facets(self, f): self.facets = np.array(f)
+            def set_holes(self, h): self.holes = [np.array(x, dtype=float) for x in h]
+
+        MI = MeshInfo
+
+        class Tri:
+            @staticmethod
+            def MeshInfo():
+                return MI()
+
+            @staticmethod
+            def build(mesh_info=None, **kw):
+                k = len(builds)
+                npts = 5 + 2 * k
+                pts = np.empty((npts, 2), dtype=object)
+                for i in range(npts):
+                    for j in range(2):
+                        pts[i, j] = SR(z3.Real(f"triangle_out{k}_{i}_{'xy'[j]}"))
+                el = np.array([[0, 1, 2], [2, 3, 4], [0, 2, 4]][: 3]) + 0 * k
+                builds.append(dict(info=mesh_info, kw=dict(kw), points=pts, elements=el))
+                return type("M", (), {"points": pts, "elements": el})()
+        L = instrument.load(G_, rebind={"triangle": Tri}, mutate=mut, vc=vcm.VC())
+        lengths = []
+        L.ns["get_max_edge_length"] = lambda pts, tri: lengths.pop(0)
+        fn = L["generate_mesh"]
+        film = np.array([[8.0, -6.0], [12.0, -6.0], [12.0, -4.0], [8.0, -4.0]])
+        hole = np.array([[10.5, -5.5], [11.5, -5.5], [11.5, -4.5], [10.5, -4.5]])
+        r0 = np.array([10.0, -5.0])
+        scen = [("no refinement requested (defaults)", dict(), [], 1),
+                ("max_edge_length=0", dict(max_edge_length=0), [], 1),
+                ("max_edge_length<0", dict(max_edge_length=-1.0), [], 1),
+                ("refined twice for max_edge_length", dict(max_edge_length=0.5), [2.0, 1.0, 0.4], 3),
+                ("already fine enough", dict(max_edge_length=0.5), [0.3], 1),
+                ("refined once for min_points", dict(min_points=6), [1.0, 1.0], 2),
+                ("min_points and max_edge_length", dict(min_points=6, max_edge_length=0.5), [1.0, 0.7, 0.2], 3)]
+        for tag, kw, sched, nb in scen:
+            for holes in (False, True):
+                del builds[:]
+                lengths[:] = list(sched)
+                t2 = f"{tag}; {'one hole' if holes else 'no hole'}"
+                try:
+                    pts, tri = fn(film.copy(), hole_coords=[hole.copy()] if holes else None, **kw)
+                except Exception as e:        # noqa
+                    check(f"C07.mesher_wrapper.returns[{t2}]", False, note=f"{type(e).__name__}: {e}")
+                    continue
+                check(f"C07.mesher_wrapper.number_of_triangle_calls[{t2}]", z3.BoolVal(len(builds) == nb), note=str(len(builds)))
+                last = builds[-1]
+                ok_shape = getattr(pts, "shape", None) == last["points"].shape
+                goal = z3.And(*[sym.eq(SR.lift(pts[i, j]), last["points"][i, j] + float(r0[j])) for i in range(last["points"].shape[0]) for j in range(2)]) if ok_shape else z3.BoolVal(False)
+                check(f"C07.mesher_wrapper.sites_are_the_last_triangulation_shifted_back_to_the_outline[{t2}]", goal)
+                check(f"C07.mesher_wrapper.triangles_are_those_of_the_last_triangulation[{t2}]", z3.BoolVal(np.array_equal(np.asarray(tri), last["elements"])))
+                info = last["info"]
+                want = np.concatenate([film] + ([hole] if holes else [])) - r0
+                check(f"C07.mesher_wrapper.triangle_receives_the_outline_centred_on_its_bounding_box[{t2}]",
+                      z3.BoolVal(info is not None and info.points.shape == want.shape and bool(np.allclose(info.points, want, atol=1e-12))))
+                nf = len(film)
+                loops = [list(range(nf))] + ([list(range(nf, nf + len(hole)))] if holes else [])
+                wantf = sorted((a, b) for lp in loops for a, b in zip(lp, lp[1:] + lp[:1]))
+                check(f"C07.mesher_wrapper.facets_close_every_outline[{t2}]", z3.BoolVal(sorted(map(tuple, np.asarray(info.facets).tolist())) == wantf))
+                if holes:
+                    hp = getattr(info, "holes", [])
+                    inside = len(hp) == 1 and 0.5 < hp[0][0] < 1.5 and -0.5 < hp[0][1] < 0.5
+                    check(f"C07.mesher_wrapper.hole_marker_inside_the_centred_hole[{t2}]", z3.BoolVal(bool(inside)))
+    obls, n = explore(body)
+    L0 = instrument.load(G_, mutate=mut, vc=vcm.VC())
+    return dict(obls=obls, paths=n, sources=[L0.info()], consistent=True)
+
+
 def run_native_quick(mutate=None):
     """BOUNDED stand-in executed also in the quick tier (reduced family): postconditions of the real mesher"""
     def body():
@@ -237,6 +321,7 @@ def units():
     return [Unit("generate_voronoi_vertices / triangle_areas", U_ + ":generate_voronoi_vertices, triangle_areas", run_kernels, props=["C07"], timeout=300),
             Unit("EdgeMesh.from_mesh", E_ + ":EdgeMesh.from_mesh", run_edge_geometry, props=["C07"], timeout=300),
             Unit("dual length rule lemmas", "lemma over the circumcentre contract", run_dual_lemma, props=["C07"], timeout=120),
+            Unit("generate_mesh[wrapper around Triangle]", G_ + ":generate_mesh", run_mesher_wrapper, props=["C07"], timeout=300),
             Unit("make_mesh postconditions [bounded]", "tdgl.device.device:Device.make_mesh (Triangle, qhull)", run_native_quick, props=["C07"], timeout=600, kind="bounded")]
 
 
@@ -258,6 +343,8 @@ def native(seed=0, reduced=False):
         fam.append(dict(film=box(4, 2, center=centre), holes=[circle(0.4, center=centre)], terms=True, centre=centre, mel=0.45, smooth=0))
         fam.append(dict(film=ellipse(2.5, 1.5, center=centre), holes=[box(0.6, 0.5, center=(centre[0] - 0.8, centre[1])), circle(0.3, center=(centre[0] + 0.9, centre[1] + 0.2))], terms=False, centre=centre, mel=0.4, smooth=10))
         fam.append(dict(film=box(3, 3, center=centre), holes=[], terms=True, centre=centre, mel=0.5, smooth=5))
+    # the mesher's no-refinement path (max_edge_length <= 0): coarse mesh of an off-centre device
+    fam.append(dict(film=box(4, 2, center=(7.5, -3.0), points=41), holes=[circle(0.4, center=(7.5, -3.0), points=21)], terms=False, centre=(7.5, -3.0), mel=0, smooth=0))
     if not reduced:
         for k in range(10):
             centre = tuple(rng.uniform(-20, 20, 2))
@@ -381,6 +468,15 @@ def replay(unit, obl):
 
 
 MUTANTS = [
+    dict(name="early return of generate_mesh loses the shift back", units=["generate_mesh[wrapper around Triangle]"], edits=[
+        (G_, "    points = np.array(mesh.points) + r0\n    triangles = np.array(mesh.elements)\n    if min_points is None", "    points = np.array(mesh.points)\n    triangles = np.array(mesh.elements)\n    if min_points is None"),
+        (G_, "        points = np.array(mesh.points) + r0\n", "        points = np.array(mesh.points)\n"),
+        (G_, "        i += 1\n    return points, triangles", "        i += 1\n    return points + r0, triangles")]),
+    dict(name="refinement returns the first triangulation", units=["generate_mesh[wrapper around Triangle]"], edits=[
+        (G_, "        mesh = triangle.build(mesh_info=mesh_info, **kwargs)\n        points = np.array(mesh.points) + r0\n        triangles = np.array(mesh.elements)\n        max_length",
+         "        mesh = triangle.build(mesh_info=mesh_info, **kwargs)\n        points2 = np.array(mesh.points) + r0\n        triangles = np.array(mesh.elements)\n        max_length")]),
+    dict(name="centre of the outline from the film vertices' mean", units=["generate_mesh[wrapper around Triangle]"], edits=[
+        (G_, "    r0 = np.array([[xmin, ymin]]) + np.array([[dx, dy]]) / 2", "    r0 = np.array([[xmin, ymin]]) + np.array([[dx, dy]])")], expect="pass"),
     dict(name="circumcentre Ux uses C[:,0]", edits=[(U_, "Ux = (C[:, 1] * (B**2).sum(axis=1) - B[:, 1] * (C**2).sum(axis=1)) / D", "Ux = (C[:, 0] * (B**2).sum(axis=1) - B[:, 1] * (C**2).sum(axis=1)) / D")]),
     dict(name="circumcentre not shifted back", edits=[(U_, "return np.array([Ux, Uy]).T + A", "return np.array([Ux, Uy]).T")]),
     dict(name="triangle area without the factor 1/2", edits=[(U_, "    return a * 0.5\n", "    return a\n")]),
